@@ -31,7 +31,7 @@ class ResWorld(World):
     name = "W-res"
 
     def __init__(self, variant: str = "full", low_energy: bool = True, pairs: bool = True, prices: bool = False,
-                 mechs=("quiet", "small", "quiet"), idle_timeout: int = 120, gas: bool = False, name: str = "", atomic_pairs: bool = False, v0_energy=None, split_base: bool = False, throttle: float = 1.0, slots: int = 1, twin_base: bool = False, auto: str = "", v2_energy=None, s1_site: str = "F1", v2_site: str = "X1", queued_start: bool = False):
+                 mechs=("quiet", "small", "quiet"), idle_timeout: int = 120, gas: bool = False, name: str = "", atomic_pairs: bool = False, v0_energy=None, split_base: bool = False, throttle: float = 1.0, slots: int = 1, twin_base: bool = False, auto: str = "", v2_energy=None, s1_site: str = "F1", v2_site: str = "X1", queued_start: bool = False, bs_two_plugs: bool = False):
         super().__init__()
         self.pairs = pairs
         if name:
@@ -58,7 +58,9 @@ class ResWorld(World):
         env = self.env
         s0 = mk_station(env, rn, "s0", S["N1"], {"DCFC": slots, "LEVEL_2": 1, "GAS_PUMP": 1} if gas else {"DCFC": slots, "LEVEL_2": 1}, one_row_per_plug=slots > 1)
         s1 = mk_station(env, rn, "s1", S[s1_site], {"DCFC": 1})
-        bs = mk_station(env, rn, "bs", S["X1"], {"LEVEL_2": slots}, one_row_per_plug=slots > 1)
+        # bs_two_plugs: the station that serves base b0 (same cell) has a fast plug as well -- a vehicle plugged in at the station on one
+        # plug type may be told to charge through the base on the other
+        bs = mk_station(env, rn, "bs", S["X1"], {"LEVEL_2": slots, "DCFC": slots} if bs_two_plugs else {"LEVEL_2": slots}, one_row_per_plug=slots > 1)
         # slots > 1: resources shared by several holders at once (a second release is not stopped by the count guard)
         b0 = mk_base(rn, "b0", S["X1"], stalls=slots, station_id="bs")
         # split_base: base b1 (on M1) is served by station s0, which stands on another cell (N1) -- the input files allow it
@@ -127,6 +129,8 @@ class ResWorld(World):
             per_vehicle += [("ChargeBase", "b1", "DCFC"), ("ReserveBase", "b1")]
         if twin_base:
             per_vehicle += [("ChargeBase", "b2", "LEVEL_2"), ("ReserveBase", "b2"), ("DispatchBase", "b2")]
+        if bs_two_plugs:
+            per_vehicle += [("ChargeStation", "bs", "DCFC"), ("ChargeStation", "bs", "LEVEL_2"), ("ChargeBase", "b0", "DCFC")]
         if variant == "full":
             per_vehicle += [
                 ("DispatchStation", "s0", "LEVEL_1"),  # plug type not installed
